@@ -2,6 +2,7 @@
 use std::collections::HashMap;
 use std::any::TypeId;
 use std::marker::PhantomData;
+use vstd::std_specs::hash::*;
 
 // ---- panics (rule R8); U3 is verified in mode P by default: "returns ==> guard held"
 //@if T
@@ -90,3 +91,14 @@ impl<'a> AtomicRefMut<'a, DynRes> {
 }
 // std HashMap over ResourceId with ahash: assumed to follow vstd's hash-table model
 pub broadcast axiom fn axiom_resource_id_key_model() ensures #[trigger] vstd::std_specs::hash::obeys_key_model::<ResourceId>();
+// std::collections::hash_map::Entry::or_insert_with (no vstd specification): the value of an occupied entry is kept,
+// a vacant one receives `default()`; the entry's final value is what the returned reference finally holds
+pub assume_specification<'a, K, V, A: std::alloc::Allocator, F: FnOnce() -> V>[ std::collections::hash_map::Entry::<'a, K, V, A>::or_insert_with ](entry: std::collections::hash_map::Entry<'a, K, V, A>, default: F) -> (r: &'a mut V)
+    requires entry.value() is None ==> default.requires(()),
+    ensures
+        match entry.value() { Some(v) => *r == v, None => default.ensures((), *r) },
+        entry.final_value() == Some(*final(r));
+// Box::new(f()) coerced to Box<dyn Resource>
+#[verifier::external_body]
+pub fn vx_box_res_of<R: Resource>(r: R) -> (b: Box<DynRes>) ensures b.ty() == type_of::<R>(), holds(&*b, &r) { unimplemented!() }
+// `&mut AtomicRefCell<T>` used through its `&self` method borrow_mut
